@@ -7,3 +7,5 @@ import Z80.Spec.KoronIM0
 import Z80.RunModel
 import Z80.Spec.MemIO
 import Z80.Spec.Cim
+import Z80.Spec.ZexEncode
+import Z80.Spec.ZexCanon
